@@ -111,6 +111,8 @@ def gen_params(t):
     return '<%s>' % ', '.join(g) if g else ''
 
 def type_decl(t):
+    if getattr(t, 'raw_decl', None):
+        return t.raw_decl
     PUB[0] = 'pub ' if t.kind in ('struct', 'union') else ''
     try:
         return type_decl_inner(t)
@@ -159,6 +161,8 @@ def build(t, v, exprs):
 
 def values_fn(t, r, cap=48):
     vals = []
+    t.xvalues = []          # structured copy of the values, for the model cross-check (atoms only)
+    atoms = all(re.match(r'^A<\d+>$', f.ft.rust) for v in t.variants for f in v.fields)
     for v in t.variants:
         combos = list(itertools.product(*[f.ft.vals for f in v.fields]))
         per = max(3, cap // max(1, len(t.variants)))
@@ -166,7 +170,46 @@ def values_fn(t, r, cap=48):
             combos = r.sample(combos, per)
         for c in combos:
             vals.append(build(t, v, list(c)))
+            if atoms:
+                fs = []
+                for i, (f, e) in enumerate(zip(v.fields, c)):
+                    k = int(f.ft.rust[2:-1]); x = int(e[2:-1])
+                    fs.append((f.name if f.name is not None else str(i), 1000 * k + x))
+                t.xvalues.append((v.name, fs))
+    if not atoms:
+        t.xvalues = None
     return 'pub fn values() -> Vec<T> { vec![%s] }' % ', '.join(vals), len(vals)
+
+def q(s):
+    return '"' + s.replace('\\', '\\\\').replace('"', '\\"') + '"'
+
+def xvalues_sx(t):
+    out = []
+    for vn, fs in t.xvalues:
+        out.append('(D %s (%s))' % ('None' if vn is None else '(Some %s)' % q(vn), ' '.join('(%s %s)' % (q(k), q(str(z))) for k, z in fs)))
+    return '(' + ' '.join(out) + ')'
+
+def dinput_sx(t):
+    """the educed type as the model's derive input (same text as the Rust declaration)"""
+    import dinput as D
+    def fld(f):
+        return D.Field(f.name, f.ft.rust, attrs=[D.educe(', '.join(g)) for g in attr_groups(f)])
+    attrs = []
+    for a in t.pre_attrs:
+        m = re.match(r'#\[(\w+)\((.*)\)\]$', a)
+        attrs.append(D.Attr(m.group(1), 'list', m.group(2)))
+    attrs += [D.educe(a) for a in t.type_attrs]
+    if t.kind == 'struct':
+        v = t.variants[0]
+        inp = D.Input('struct', 'T', attrs=attrs, fkind=v.shape, fields=[fld(f) for f in v.fields])
+    else:
+        vs = []
+        for v in t.variants:
+            vs.append(D.Variant(v.name, v.shape, fields=[fld(f) for f in v.fields],
+                                attrs=[D.educe(', '.join(g)) for g in attr_groups(v)],
+                                discr=None if v.discr is None else str(v.discr)))
+        inp = D.Input('enum', 'T', attrs=attrs, variants=vs)
+    return inp.sx()
 
 def show_fn(t):
     arms = []
@@ -226,7 +269,7 @@ def module(t, body, nvals):
     if NOISE[0] is not None and not getattr(t, '_noised', False):
         t._noised = True
         add_noise(t, NOISE[0][1], NOISE[0][0])
-    ty = ('pub mod ty {\n    #![deny(warnings)]\n    #![allow(dead_code, unused_imports, non_snake_case)]\n    use crate::support::{A, B, C, N, Fl, Good, Bad, m_eq, m_cmp, m_pcmp, m_hash, m_fmt, m_clone, m_clone_c, m_into, g_eq, g_cmp, g_pcmp, g_hash, g_fmt};\n'
+    ty = ('pub mod ty {\n    #![deny(warnings)]\n    #![allow(dead_code, unused_imports, non_snake_case)]\n    use crate::support::{A, B, C, N, Fl, Good, Bad, g_clone, g_default, g_into, m_eq, m_cmp, m_pcmp, m_hash, m_fmt, m_clone, m_clone_c, m_into, m_same, Mk, g_eq, g_cmp, g_pcmp, g_hash, g_fmt};\n'
           '    use educe::Educe;\n%s%s\n}\npub use ty::T;' % (HOSTILE_ITEMS if HOSTILE[0] else '', type_decl(t)))
     return ('// %s\n#![allow(dead_code, unused_variables, unused_mut, unused_imports, non_shorthand_field_patterns, clippy::all)]\n'
             'use crate::support::*;\nuse core::cmp::Ordering;\n%s\n%s\n' % (t.id, ty, body))
@@ -267,8 +310,9 @@ class EqSuite(Suite):
             'pub fn o_eq(a: &T, b: &T) -> bool { match (a, b) { %s } }' % ', '.join(arms),
             'pub fn run(out: &mut Out) { let vs = values(); for a in &vs { for b in &vs { let e = o_eq(a, b);'
             ' out.check((a == b) == e, "%s", "eq", || format!("{} == {} expected {}", show(a), show(b), e));'
-            ' out.check((a != b) == !e, "%s", "ne", || format!("{} != {} expected {}", show(a), show(b), !e)); } } }' % (tid, tid)])
-        return t, module(t, body, nv), dict(values=nv)
+            ' out.check((a != b) == !e, "%s", "ne", || format!("{} != {} expected {}", show(a), show(b), !e)); } }'
+            ' let mut res = String::new(); for a in &vs { for b in &vs { res.push(if a == b { \'1\' } else { \'0\' }); } } println!("RES\\t%s\\teq\\t{}", res); }' % (tid, tid, tid)])
+        return t, module(t, body, nv), dict(values=nv, xops=['eq'])
 
 class HashSuite(Suite):
     name = 'hash'
@@ -301,8 +345,9 @@ class HashSuite(Suite):
         body = '\n'.join([vf, show_fn(t),
             'pub fn o_hash(x: &T) -> Vec<String> { let mut e = Rec::default(); match x { %s } e.0 }' % ', '.join(arms),
             'pub fn run(out: &mut Out) { let vs = values(); for a in &vs { let mut g = Rec::default(); ::core::hash::Hash::hash(a, &mut g); let e = o_hash(a);'
-            ' out.check(g.0 == e, "%s", "hash", || format!("hash({}) fed {:?} expected {:?}", show(a), g.0, e)); } }' % tid])
-        return t, module(t, body, nv), dict(values=nv)
+            ' out.check(g.0 == e, "%s", "hash", || format!("hash({}) fed {:?} expected {:?}", show(a), g.0, e)); }'
+            ' let mut res = String::new(); for a in &vs { let mut g = Rec::default(); ::core::hash::Hash::hash(a, &mut g); res.push_str(&g.0.join(",")); res.push(\';\'); } println!("RES\\t%s\\thash\\t{}", res); }' % (tid, tid)])
+        return t, module(t, body, nv), dict(values=nv, xops=['hash'])
 
 class OrdSuite(Suite):
     name = 'ord'
@@ -444,8 +489,16 @@ class OrdSuite(Suite):
             call = '::core::cmp::Ord::cmp(&wa.x, &wb.x)' if mode in ('both', 'ord') else '::core::cmp::PartialOrd::partial_cmp(&wa.x, &wb.x)'
             checks.append('for n in [0u8, 1, 0x7f, 0x80, 0xff] { let wa = wrap(i, n); let wb = wrap(j, !n); let g = %s; let e = %s;'
                           ' out.check(g == e, "%s", "cmp_neighbours", || format!("cmp({}, {}) with neighbour bytes {} = {:?} expected {:?}", show(a), show(b), n, g, e)); }' % (call, op, tid))
-        fns.append('pub fn run(out: &mut Out) { let vs = values(); for (i, a) in vs.iter().enumerate() { for (j, b) in vs.iter().enumerate() { %s } } }' % ' '.join(checks))
-        return t, module(t, '\n'.join([t.extra] + fns), nv), dict(values=nv, mode=mode)
+        if mode in ('both', 'ord'):
+            resline = ('let mut res = String::new(); for a in &vs { for b in &vs { res.push(match ::core::cmp::Ord::cmp(a, b) { Ordering::Less => \'L\', Ordering::Equal => \'E\', Ordering::Greater => \'G\' }); } }'
+                       ' println!("RES\\t%s\\tcmp\\t{}", res);' % tid)
+            xops = ['cmp']
+        else:
+            resline = ('let mut res = String::new(); for a in &vs { for b in &vs { res.push(match ::core::cmp::PartialOrd::partial_cmp(a, b) { Some(Ordering::Less) => \'L\', Some(Ordering::Equal) => \'E\', Some(Ordering::Greater) => \'G\', None => \'N\' }); } }'
+                       ' println!("RES\\t%s\\tpartial_cmp\\t{}", res);' % tid)
+            xops = ['partial_cmp']
+        fns.append('pub fn run(out: &mut Out) { let vs = values(); for (i, a) in vs.iter().enumerate() { for (j, b) in vs.iter().enumerate() { %s } } %s }' % (' '.join(checks), resline))
+        return t, module(t, '\n'.join([t.extra] + fns), nv), dict(values=nv, mode=mode, xops=xops)
 
 SUITES = {'eq': EqSuite(), 'hash': HashSuite(), 'ord': OrdSuite(), 'ordlayout': OrdSuite(layout=True)}
 
@@ -795,7 +848,10 @@ class IntoSuite(Suite):
                 f = v.fields[i]
                 meth = False
                 if mark:
-                    if tg.startswith('B') and r.random() < 0.4:
+                    if tg.startswith('A') and r.random() < 0.4:
+                        meth = 'm_same'
+                        f.at.setdefault('_metas', []).append(pick(r, ['Into(%s, method(m_same))', 'Into(%s, method = m_same)', 'Into(%s, method = "m_same")']) % tg)
+                    elif tg.startswith('B') and r.random() < 0.4:
                         meth = True
                         f.at.setdefault('_metas', []).append(pick(r, ['Into(%s, method(m_into))', 'Into(%s, method = m_into)', 'Into(%s, method = "m_into")']) % tg)
                     else:
@@ -814,7 +870,9 @@ class IntoSuite(Suite):
             for v in t.variants:
                 i, meth = oracle[(tg, v.name)]
                 f = v.fields[i]
-                if meth:
+                if meth == 'm_same':
+                    e = 'm_same(p%d)' % i
+                elif meth:
                     e = 'm_into(p%d)' % i
                 elif f.ft.rust == tg:
                     e = 'p%d' % i
@@ -899,7 +957,8 @@ BOUND_TRAITS = {
     'PartialOrd': dict(probe='p_partial_ord', method='g_pcmp', ignore=True, manual=['PartialEq']),
     'Ord': dict(probe='p_ord', method='g_cmp', ignore=True, manual=['PartialEq', 'Eq', 'PartialOrd']),
     'Debug': dict(probe='p_debug', method='g_fmt', ignore=True),
-    'Clone': dict(probe='p_clone', method=None, ignore=False),
+    'Clone': dict(probe='p_clone', method='g_clone', ignore=False),
+    'Default': dict(probe='p_default', method=None, ignore=False, expr='g_default()'),
     'Eq': dict(probe='p_eq', method=None, ignore=False, manual=['PartialEq']),
     'Copy': dict(probe='p_copy', method=None, ignore=False, manual=['Clone']),
 }
@@ -913,14 +972,17 @@ MANUAL_IMPL = {
 class BoundsSuite(Suite):
     name = 'bounds'
     def make(self, r, tid):
+        if r.random() < 0.2:
+            return self.make_into(r, tid)
         trait = pick(r, list(BOUND_TRAITS))
         info = BOUND_TRAITS[trait]
         nparams = pick(r, [1, 2, 2, 3])
         params = ['X', 'Y', 'Z'][:nparams]
         def ftgen(r, i):
             p = pick(r, params)
-            return FT(pick(r, ['%s', '%s', 'Option<%s>', '::core::marker::PhantomData<%s>' if trait in ('Clone',) and False else '%s']) % p, [])
-        t = gen_shape(r, tid, ftgen=ftgen, unit_ok=(trait not in ()), maxf=3)
+            return FT(pick(r, ['%s', '%s', 'Option<%s>' if trait != 'Default' else '%s']) % p, [])
+        kinds = ('struct',) if trait == 'Default' else ('struct', 'enum')
+        t = gen_shape(r, tid, kinds=kinds, ftgen=ftgen, unit_ok=(trait not in ('Default',)), maxf=3)
         for v in t.variants:
             for f in v.fields:
                 f.param = re.search(r'[XYZ]', f.ft.rust).group(0)
@@ -938,6 +1000,8 @@ class BoundsSuite(Suite):
                     f.at['_metas'] = [sp_ignore(r, trait)]; deleg = False
                 elif info['method'] and c < 0.55:
                     f.at['_metas'] = [sp_method(r, trait, info['method'])]; deleg = False
+                elif info.get('expr') and c < 0.5:
+                    f.at['_metas'] = [pick(r, ['Default(expression = %s)', 'Default(expr(%s))']) % info['expr']]; deleg = False
                 if deleg:
                     needed.add(f.param)
         tparam = []
@@ -948,7 +1012,8 @@ class BoundsSuite(Suite):
             q = pick(r, params)
             want = sorted(needed | {q})
             btrait = {'PartialEq': '::core::cmp::PartialEq', 'Hash': '::core::hash::Hash', 'PartialOrd': '::core::cmp::PartialOrd', 'Ord': '::core::cmp::Ord',
-                      'Debug': '::core::fmt::Debug', 'Clone': '::core::clone::Clone', 'Eq': '::core::cmp::PartialEq', 'Copy': '::core::marker::Copy'}[trait]
+                      'Debug': '::core::fmt::Debug', 'Clone': '::core::clone::Clone', 'Eq': '::core::cmp::PartialEq', 'Copy': '::core::marker::Copy',
+                      'Default': '::core::default::Default'}[trait]
             preds = ', '.join('%s: %s' % (p, btrait) for p in want)
             tparam = [pick(r, ['bound(%s)', 'bound = "%s"']) % preds]; needed = set(want)
         t.type_attrs = ['%s(%s)' % (trait, ', '.join(tparam))] if tparam else [trait]
@@ -964,7 +1029,136 @@ class BoundsSuite(Suite):
         body = '\n'.join(extra + ['pub fn run(out: &mut Out) { %s }' % ' '.join(checks)])
         return t, module(t, body, 1), dict(values=2 ** nparams, trait=trait, mode=mode)
 
+def _make_into(self, r, tid):
+    """Into: each target's impl is bounded by the conversion of ITS designated field only"""
+    kind = pick(r, ['struct', 'enum'])
+    params = ['X', 'Y']
+    targets = ['B<0>', 'B<1>']
+    def mkfields(shape):
+        # field 0 : X designated for B<0>, field 1 : Y designated for B<1> (optionally through a method), + a decoy
+        fs = [Fld('a' if shape == 'named' else None, FT('X', [])), Fld('b' if shape == 'named' else None, FT('Y', []))]
+        if r.random() < 0.5:
+            fs.append(Fld('c' if shape == 'named' else None, FT('u8', [])))
+        return fs
+    need = {'B<0>': set(), 'B<1>': set()}
+    def mark(fs):
+        for i, tg, p in ((0, 'B<0>', 'X'), (1, 'B<1>', 'Y')):
+            if r.random() < 0.3:
+                fs[i].at['_metas'] = fs[i].at.get('_metas', []) + ['Into(%s, method(g_into))' % tg]
+            else:
+                fs[i].at['_metas'] = fs[i].at.get('_metas', []) + ['Into(%s)' % tg]
+                need[tg].add(p)
+    if kind == 'struct':
+        shape = pick(r, ['named', 'unnamed'])
+        fs = mkfields(shape); mark(fs)
+        t = Ty(tid, 'struct', [Var(None, shape, fs)])
+    else:
+        vs = []
+        for vn in r.sample(VAR_NAMES, pick(r, [1, 2])):
+            shape = pick(r, ['named', 'unnamed'])
+            fs = mkfields(shape); mark(fs)
+            vs.append(Var(vn, shape, fs))
+        t = Ty(tid, 'enum', vs)
+    t.type_attrs = ['Into(B<0>)', 'Into(B<1>)'] if r.random() < 0.5 else ['Into(B<0>), Into(B<1>)']
+    if r.random() < 0.5:
+        t.type_attrs.reverse() if len(t.type_attrs) == 2 else None
+    t.generic = params
+    checks = []
+    for tg, probe in (('B<0>', 'p_into_b0'), ('B<1>', 'p_into_b1')):
+        for combo in itertools.product(['Good', 'Bad'], repeat=2):
+            exp = all(c == 'Good' for p, c in zip(params, combo) if p in need[tg])
+            inst = 'T<%s>' % ', '.join(combo)
+            checks.append('{ use crate::support::%s::Fallback as _; let g = crate::support::%s::P::<%s>::YES; out.check(g == %s, "%s", "impl_applies", || format!("%s: Into<%s> is {} but the designated fields say %s", g)); }'
+                          % (probe, probe, inst, 'true' if exp else 'false', tid, inst, tg, 'true' if exp else 'false'))
+    body = 'pub fn run(out: &mut Out) { %s }' % ' '.join(checks)
+    return t, module(t, body, 1), dict(values=8, trait='Into', mode='auto')
+BoundsSuite.make_into = _make_into
+
 SUITES['bounds'] = BoundsSuite()
+
+# ---- C12 / C01: rich generic parameter lists and user where-clauses must survive in every impl header
+GEN_TRAITS = {
+    'Debug': ('::core::fmt::Debug', 'let _ = format!("{:?}", x);'),
+    'Clone': ('::core::clone::Clone', 'let _ = ::core::clone::Clone::clone(&x);'),
+    'PartialEq': ('::core::cmp::PartialEq', 'let _ = x == x;'),
+    'Hash': ('::core::hash::Hash', 'let mut h = Rec::default(); ::core::hash::Hash::hash(&x, &mut h);'),
+    'PartialOrd': ('::core::cmp::PartialOrd', 'let _ = ::core::cmp::PartialOrd::partial_cmp(&x, &x);'),
+    'Into': (None, 'let _: u8 = ::core::convert::Into::into(x);'),
+    'Deref': (None, 'let _: &u8 = ::core::ops::Deref::deref(&x);'),
+    'Default': ('::core::default::Default', 'let _ = <T<\'static, Good, 2> as ::core::default::Default>::default();'),
+}
+class GenericsSuite(Suite):
+    name = 'generics'
+    def make(self, r, tid):
+        kind = pick(r, ['struct', 'enum'])
+        traits = r.sample(['Debug', 'Clone', 'PartialEq', 'Hash', 'PartialOrd'], pick(r, [1, 2, 3]))
+        extra = pick(r, [None, None, 'Into', 'Deref', 'Default'])
+        if 'PartialOrd' in traits and 'PartialEq' not in traits:
+            traits.append('PartialEq')
+        if extra and not (extra == 'Default' and kind == 'enum'):
+            traits.append(extra)
+        where = pick(r, ['where X: Mk', 'where X: Mk,', 'where X: Mk, [X; N]: Sized', ''])
+        header = "<'a, X: 'a + Copy, const N: usize>" if r.random() < 0.7 else "<'a, X: 'a + Copy = Good, const N: usize = 2>"
+        def fields(shape):
+            fs = [("r", "&'a X"), ("arr", "[X; N]"), ("n", "u8")]
+            if 'Default' in traits:
+                fs = [("opt", "Option<X>"), ("n", "u8"), ("ph", "::core::marker::PhantomData<&'a X>")]
+            r.shuffle(fs)
+            return fs
+        def decl_fields(shape, fs, markers):
+            out = []
+            vis = 'pub ' if kind == 'struct' else ''
+            for nm, ty in fs:
+                a = ''.join('#[educe(%s)] ' % m for m in markers) if (ty == 'u8' and markers) else ''
+                out.append('%s%s%s: %s' % (a, vis, nm, ty) if shape == 'named' else '%s%s%s' % (a, vis, ty))
+            return ' { ' + ', '.join(out) + ' }' if shape == 'named' else '(' + ', '.join(out) + ')'
+        markers = []
+        if 'Into' in traits:
+            markers.append('Into(u8)')
+        if 'Deref' in traits:
+            markers.append('Deref')
+        tattrs = []
+        for tr in traits:
+            if tr == 'Into':
+                b = pick(r, ['', ', bound(*)', ', bound = false'])
+                tattrs.append('Into(u8%s)' % b)
+            elif tr == 'Deref':
+                tattrs.append('Deref')
+            else:
+                bt = GEN_TRAITS[tr][0]
+                mode = pick(r, ['', '', '(bound(*))', '(bound(X: %s))' % bt, '(bound = "X: %s")' % bt])
+                if tr == 'Default' and mode == '':
+                    mode = ''
+                tattrs.append(tr + mode)
+        r.shuffle(tattrs)
+        shape = pick(r, ['named', 'unnamed'])
+        if kind == 'struct':
+            fs = fields(shape)
+            body = 'pub struct T%s%s%s%s' % (header, (' ' + where + ' ') if shape == 'named' else '', decl_fields(shape, fs, markers),
+                                             '' if shape == 'named' else (' ' + where + ';'))
+            ctor_fs = fs
+            ctor = 'T'
+        else:
+            fs = fields(shape)
+            body = 'pub enum T%s %s { V%s, W%s }' % (header, where, decl_fields(shape, fs, markers), decl_fields(shape, fields(shape), markers) if 'Deref' not in traits and 'Into' not in traits else decl_fields(shape, fs, markers))
+            ctor_fs = fs
+            ctor = 'T::V'
+        vals = {"&'a X": '&G', '[X; N]': '[Good(1), Good(2)]', 'Option<X>': 'None', 'u8': '5', "::core::marker::PhantomData<&'a X>": '::core::marker::PhantomData'}
+        if shape == 'named':
+            mk = '%s { %s }' % (ctor, ', '.join('%s: %s' % (nm, vals[ty]) for nm, ty in ctor_fs))
+        else:
+            mk = '%s(%s)' % (ctor, ', '.join(vals[ty] for nm, ty in ctor_fs))
+        uses = []
+        for tr in traits:
+            uses.append('{ let x: T<\'static, Good, 2> = %s; %s }' % (mk, GEN_TRAITS[tr][1]))
+        t = Ty(tid, kind, [])
+        t.raw_decl = '#[derive(Educe)]\n' + '\n'.join('#[educe(%s)]' % a for a in tattrs) + '\n' + body
+        src = ('// %s\n#![allow(dead_code, unused_variables, unused_mut, unused_imports)]\nuse crate::support::*;\n'
+               'pub mod ty {\n    #![deny(warnings)]\n    #![allow(dead_code, unused_imports)]\n    use crate::support::{Good, Bad, Mk};\n    use educe::Educe;\n%s\n}\npub use ty::T;\n'
+               'static G: Good = Good(9);\npub fn run(out: &mut Out) { %s out.check(true, "%s", "compile", || String::new()); }\n' % (tid, t.raw_decl, ' '.join(uses), tid))
+        return t, src, dict(values=1, traits=traits)
+
+SUITES['generics'] = GenericsSuite()
 
 def add_noise(t, r, suite):
     """educe one more trait with attributes of its own on the same items"""
@@ -1134,6 +1328,45 @@ def run(pid, suites, tier, seed, n=None, hostile=False, only_ops=None):
                 ran += 1
             elif p[0] == 'DONE':
                 checks = int(p[1])
+        # implementation = model under Sem/Interp.v (extracted, interpretation I0) on the same values
+        real_res = {}
+        for line in lines:
+            p = line.split('\t')
+            if p[0] == 'RES' and len(p) == 4:
+                real_res[(p[1], p[2])] = p[3]
+        xcases = []
+        for tid, (t, src, meta) in info.items():
+            if t is None or not meta.get('xops') or getattr(t, 'xvalues', None) is None or t.kind == 'union':
+                continue
+            for op in meta['xops']:
+                if (tid, op) in real_res:
+                    try:
+                        xcases.append(('RUN', '%s:%s' % (tid, op), op, dinput_sx(t), xvalues_sx(t)))
+                    except Exception as e:
+                        pass
+        xstats = dict(compared=0, agree=0, model_stuck=0)
+        if xcases:
+            import k1
+            inp = ''.join('\t'.join(c) + '\n' for c in xcases)
+            pr = subprocess.run([k1.MODEL], input=inp, capture_output=True, text=True)
+            for line in pr.stdout.split('\n'):
+                p = line.split('\t')
+                if len(p) == 3 and p[1] == 'RUN':
+                    tid, op = p[0].split(':')
+                    real = real_res[(tid, op)]
+                    xstats['compared'] += 1
+                    if p[2] == real:
+                        xstats['agree'] += 1
+                    elif '?' in p[2] or p[2].startswith('BADINPUT'):
+                        xstats['model_stuck'] += 1
+                        failures.append(dict(key='k2:model-stuck:%s' % op, what='the model (expand + Sem/Interp.v under I0) does not evaluate %s on this type: %s' % (op, p[2][:120]),
+                                             type_def=type_decl(info[tid][0]), detail=p[2][:300], op='model_' + op))
+                    else:
+                        i = next(k for k in range(min(len(real), len(p[2]))) if real[k] != p[2][k]) if len(real) == len(p[2]) else -1
+                        failures.append(dict(key='k2:model-vs-real:%s:%s' % (op, hashlib.sha256(type_decl(info[tid][0]).encode()).hexdigest()[:10]),
+                                             what='%s: the real compiled code and the model run under Sem/Interp.v disagree (first difference at result %d: real %s, model %s)'
+                                                  % (op, i, real[i:i + 1] if i >= 0 else real[:40], p[2][i:i + 1] if i >= 0 else p[2][:40]),
+                                             type_def=type_decl(info[tid][0]), detail='real=%s model=%s' % (real[:200], p[2][:200]), op='model_' + op))
         for tid, msg in compile_fail.items():
             t, src, meta = info[tid]
             if t is None:
@@ -1153,7 +1386,7 @@ def run(pid, suites, tier, seed, n=None, hostile=False, only_ops=None):
                 seen.add(k); uniq.append(f)
         if only_ops:
             uniq = [f for f in uniq if f['op'] in only_ops]
-        stats = dict(types=len(mods), ran=ran, checks=checks, failures=len(failures), compile_failures=len(compile_fail),
+        stats = dict(types=len(mods), ran=ran, checks=checks, failures=len(failures), compile_failures=len(compile_fail), model_cross_check=xstats,
                      wall_s=round(time.time() - t0, 1))
         return uniq, stats
 
